@@ -144,6 +144,36 @@ func checkC01(p *Prog, c *Check) {
 		}
 	}
 	c.Floor(rule+".lookup", nl, 3)
+	// the key function itself: Hex() is the standard hex encoding of the whole byte string (injective);
+	// anything computed from a numeric view of the bytes (leading zeros vanish) would merge identities
+	if hx, err := p.Func("medley/identitypreimage.IdentityPreimage.Hex"); c.Must(err) {
+		hfi := p.Info(hx)
+		c.Analysed(shortFn(hx))
+		for _, r := range returnsOf(hx) {
+			t := hfi.T(r.Results[0])
+			okh := false
+			for _, enc := range []string{"hexutil.Encode($e)", "hex.EncodeToString($e)"} {
+				b := Binds{}
+				if ParsePat(enc).Match(t, b) {
+					arg := b["e"]
+					for arg.K == TConv && len(arg.Sub) == 1 {
+						arg = arg.Sub[0]
+					}
+					if arg.s == hfi.T(hx.Params[0]).s {
+						okh = true
+					}
+				}
+			}
+			c.Result(okh, rule+".hex", "Hex:injective@"+retKey(hfi, r), p.siteOf(r), shortFn(hx), "IdentityPreimage.Hex()", "the map key function is not the hex encoding of the identity's own bytes (distinct identities could share a key): "+t.s, "hexutil.Encode(e)")
+		}
+	}
+	// the assumption about stored rows is discharged here as well: the ingress validator's per-share
+	// loop and the store-after-validation rule (shared with C04)
+	if accept, err := p.validationConst("ValidationAccept"); c.Must(err) {
+		c04Shares(p, c, accept)
+		c04SharesLoop(p, c, accept)
+		c04Store(p, c)
+	}
 
 	c01Handler(p, c)
 	c.SQL(p, "C01-R4.sql", "keyper/database", "insertDecryptionKey", "ON CONFLICT DO NOTHING")
